@@ -63,13 +63,27 @@ def run_model_instances(run, mc_module, monitor, instances, variants=None, kinds
     variants(scenario, behaviour) -> list of (tag, scenario) executed for each behaviour (default: as is).
     Returns list of (tag, behaviour, scenario, log)."""
     results = []
-    for inst in instances:
+    from concurrent.futures import ThreadPoolExecutor
+    par = min(len(instances), 8) if len(instances) > 3 else 1
+
+    def gen(inst):
         consts = dict(DEFAULTS)
         consts.update(inst['consts'])
         text = cfg_text(consts, invariants=inst.get('invariants', ('MonPrefix', 'MonFinal', 'Emit')))
-        res, beh = pipeline.generate(mc_module, text, simulate=inst.get('simulate'), depth=inst.get('depth'),
-                                     seed=run.seed if inst.get('simulate') else None, timeout=inst.get('timeout', 1800))
-        run.add_tlc('model %s %s' % (mc_module[0] if isinstance(mc_module, tuple) else mc_module, inst['label']), res)
+        return pipeline.generate(inst.get('module', mc_module), text, simulate=inst.get('simulate'), depth=inst.get('depth'),
+                                 seed=run.seed if inst.get('simulate') else None, timeout=inst.get('timeout', 1800),
+                                 workers=(max(2, pipeline.NPROC // par) if par > 1 else None))
+    if par > 1:
+        with ThreadPoolExecutor(max_workers=par) as ex:
+            generated = list(ex.map(gen, instances))
+    else:
+        generated = None
+    for ii, inst in enumerate(instances):
+        consts = dict(DEFAULTS)
+        consts.update(inst['consts'])
+        res, beh = generated[ii] if generated else gen(inst)
+        mcm = inst.get('module', mc_module)
+        run.add_tlc('model %s %s' % (mcm[0] if isinstance(mcm, tuple) else mcm, inst['label']), res)
         if res.violated:
             raise pipeline.MachineryFailure(
                 'the monitor %s rejects a behaviour of the model (%s, instance %s): model and monitor disagree\n%s\n%s'
@@ -179,9 +193,12 @@ MonFinal == pc = "done" => (%(verdict)s = "ok" \\/ (PrintT(<<"MODEL-REJECT", %(v
 """
 
 
-def wrapper(monitor, verdict='Verdict(obs)'):
-    name = 'MCW_' + monitor
-    return (name, WRAPPER % {"name": name, "monitor": monitor, "verdict": verdict})
+def wrapper(monitor, verdict='Verdict(obs)', extra_defs='', suffix=''):
+    name = 'MCW_' + monitor + suffix
+    text = WRAPPER % {"name": name, "monitor": monitor, "verdict": verdict}
+    if extra_defs:
+        text = text.replace('====\n', extra_defs + '\n====\n')
+    return (name, text)
 
 
 def reseg(sc, how):
